@@ -101,7 +101,8 @@ ExpParts(b) ==
            ctype |-> IF f.api = "field" /\ f.filename # "" THEN f.ctype ELSE "",
            n |-> f.n, isText |-> FALSE, text |-> "", runs |-> IF f.n = 0 THEN << >> ELSE <<<<f.i, 0, f.n>>>>]]
 
-\* Operations on the specially stored request headers (prog.special), carried out in order after everything else:
+\* Operations on the specially stored request headers (prog.special), carried out in order after the header adds and
+\* the option setters and before the body is attached:
 \* the LAST writer of a name wins, a deleted name is absent (Host: back to the URL's host), whichever API was used --
 \* Header.Set(name, v) / Header.Del(name) or the dedicated setters.
 SetCookieIn(cs, ck, cv) == IF \E j \in DOMAIN cs : cs[j].k = ck
